@@ -20,7 +20,7 @@ CHECKS["C16"] = ("exploration", "differential monitor: consensus script library 
   "every script of the seeded stream (three templates with boundary frozen periods and legal/illegal binding targets, eight mutation kinds, random bytes ≤300 B) is read by the wallet and by the consensus library and all accessors are compared; panics are caught per call",
   "mass-core is the reference and is trusted; staking maturity for frozen period 2^64-1 unspecified", "§5 C16")
 
-CHECKS["C18"] = ("fault_enumeration", "storage-fault enumeration through the database interposer: every database call index of a recorded scenario (begin, get, put, delete, iterator, commit) fails once in its own run; the failed API call is repeated, background tasks retry on their own; final observation vs a fault-free twin run and vs the reference ledger",
+CHECKS["C18"] = ("fault_enumeration", "storage-fault enumeration through the database interposer: every storage call index of a recorded scenario - wallet database (begin, get, put, delete, iterator, commit) and the wallet's reads of the node database (blocks, transactions, script-hash index) in one numbering - fails once in its own run; the failed API call is repeated, background tasks retry on their own; final observation vs a fault-free twin run and vs the reference ledger",
   "a scenario (import x2, new addresses, 9 blocks incl. 2 reorgs, create, remove with blocks arriving, flush blocks) is recorded once; per step group every call index (quick: all indexes of small steps, a seeded sample with both ends of large ones; thorough: all) is failed once and as a burst of consecutive failures; an attempt of the operation during which storage works must succeed, the NewAddress sequence, wallet list, every API observation of the surviving wallet and the ledger must equal the twin's; no follower goroutine may die",
   "one fault burst per run (1 failing call, or 2/3/6 consecutive failing calls); bucket lookups have no error return and are not faulted; rolled-back transactions are always resolved on the new branch (a block the wallet skipped and the chain abandoned is not a lost block)", "§5 C18")
 
